@@ -69,6 +69,14 @@ import "github.com/glebziz/fs_db/internal/model"
 //@   ensures  ownbuf:   result == nil ==> fresh(world.kvBuf)
 //@   ensures  badids:   (!uuidValid(f.TxId) || !uuidValid(f.ContentId)) ==> result != nil && is(result, model.ErrInvalidFileFormat)
 
+// RunTransaction hands the body to the provider's transactor unchanged: it runs once, its failure fails the call.
+//@ func (*Repo).RunTransaction
+//@   requires wf:      r != nil && r.p != nil
+//@   requires ctx:     ctx != nil
+//@   modifies *
+//@   ensures  once:    world.fnCalls == old(world.fnCalls) + 1
+//@   ensures  verdict: world.fnErr != nil ==> result != nil
+
 // Round trip (lemma over the two contracts above; calls use contracts only):
 // every record with canonical ids decodes to exactly what was encoded.
 //@ func lemmaRoundTrip
